@@ -49,12 +49,14 @@ def check_explicit_entry_params_checked(ctx, rule: str) -> None:
     guarded by a test over (parameters of the named entry point, provided) exists in the validator."""
     db, rep = ctx.db, ctx.rep
     f = db.func("runners._shared.validation._validate_cycle_entry")
-    epar = next((p_ for p_ in f.param_names if p_ == "entrypoint"), None)
+    # the explicit entry point is the parameter that may be None and is a plain string otherwise (whatever it is called)
+    epar = next((p_ for p_ in f.param_names if src(f.param_annotation(p_) or ast.Constant("")).replace(" ", "") in ("str|None", "None|str", "Optional[str]")), None) or next((p_ for p_ in f.param_names if p_ == "entrypoint"), None)
     if epar is None:
         raise AnalysisError("_validate_cycle_entry: entrypoint parameter not found")
     own = {nm for nm, ds in db.local_defs(f).items() if any(f"[{epar}]" in src(getattr(d, "value", None) or ast.Constant("")) for d in ds)}
     skips = [x for x in walk_local(f.node) if isinstance(x, ast.Continue) and any(isinstance(a, ast.If) and isinstance(a.test, ast.Compare) for a in ancestors(x))]
-    checks = [t for t in walk_local(f.node) if isinstance(t, ast.If) and "provided" in src(t.test) and (any(nm in {z.id for z in ast.walk(t.test) if isinstance(z, ast.Name)} for nm in own) or f"[{epar}]" in src(t.test)) and any(isinstance(z, ast.Raise) for b in t.body for z in ast.walk(b))]
+    psets = {p_ for p_ in f.param_names if src(f.param_annotation(p_) or ast.Constant("")).replace(" ", "") == "set[str]"} or {"provided"}
+    checks = [t for t in walk_local(f.node) if isinstance(t, ast.If) and any(isinstance(z, ast.Name) and z.id in psets for z in ast.walk(t.test)) and (any(nm in {z.id for z in ast.walk(t.test) if isinstance(z, ast.Name)} for nm in own) or f"[{epar}]" in src(t.test)) and any(isinstance(z, ast.Raise) for b in t.body for z in ast.walk(b))]
     ok = bool(checks) or not skips
     rep.add(rule, f"{f.qname}:explicit-entry-own-params-checked", ok, f.loc(), "the named entry point's own parameters are checked against the provided values before its cycle is exempted" if ok else "the cycle of an explicitly named entry point is skipped ('entry chosen by the caller') but nothing checks that the entry point's own parameters were provided: run(graph, {}, entrypoint='node_a') is accepted, no node ever becomes ready and the run completes with no values — an omitted needed parameter is not rejected")
 
